@@ -208,6 +208,15 @@ func normalizeOps(repo string) []string {
 	if fd == nil {
 		return res
 	}
+	// the body has to be a straight line of `ski = f(ski, ...)` assignments and one return: a branch (a fast path for
+	// some inputs, say) makes the function something else than the composition of the listed operations
+	for _, st := range fd.Body.List {
+		switch st.(type) {
+		case *ast.AssignStmt, *ast.ReturnStmt:
+		default:
+			res = append(res, "("+leanStr("not-straight-line")+", \"\", \"\")")
+		}
+	}
 	ast.Inspect(fd.Body, func(n ast.Node) bool {
 		call, ok := n.(*ast.CallExpr)
 		if !ok {
